@@ -88,12 +88,49 @@ impl Metadata {
     #[verifier::external_body] pub fn st_gid(&self) -> (r: u32) ensures r == self.spec_gid() { unimplemented!() }
     // second-resolution and link-count accessors: values opaque (no contract speaks about them)
     #[verifier::external_body] pub fn nlink(&self) -> (r: u64) { unimplemented!() }
-    #[verifier::external_body] pub fn mtime(&self) -> (r: i64) { unimplemented!() }
-    #[verifier::external_body] pub fn atime(&self) -> (r: i64) { unimplemented!() }
+    // MetadataExt: seconds and nanoseconds of the same snapshot
+    #[verifier::external_body] pub fn mtime(&self) -> (r: i64) ensures r == self.spec_mtime().sec { unimplemented!() }
+    #[verifier::external_body] pub fn atime(&self) -> (r: i64) ensures r == self.spec_atime().sec { unimplemented!() }
     #[verifier::external_body] pub fn ctime(&self) -> (r: i64) { unimplemented!() }
-    #[verifier::external_body] pub fn mtime_nsec(&self) -> (r: i64) { unimplemented!() }
-    #[verifier::external_body] pub fn atime_nsec(&self) -> (r: i64) { unimplemented!() }
+    #[verifier::external_body] pub fn mtime_nsec(&self) -> (r: i64) ensures r == self.spec_mtime().nsec { unimplemented!() }
+    #[verifier::external_body] pub fn atime_nsec(&self) -> (r: i64) ensures r == self.spec_atime().nsec { unimplemented!() }
 }
+/// rustix::fs::{Timespec, Timestamps, futimens}
+pub struct Timespec { pub tv_sec: i64, pub tv_nsec: i64 }
+pub struct Timestamps { pub last_access: Timespec, pub last_modification: Timespec }
+#[verifier::external_body]
+pub fn futimens(fd: &File, times: &Timestamps, Tracked(w): Tracked<&mut World>) -> (r: std::result::Result<(), Errno>)
+    ensures fr_files(*old(w), *final(w)),
+        match r {
+            Ok(_) => {
+                let i = fd.inode(); let f = old(w).files[i];
+                let na = Time { sec: times.last_access.tv_sec as int, nsec: times.last_access.tv_nsec as int };
+                let nm = Time { sec: times.last_modification.tv_sec as int, nsec: times.last_modification.tv_nsec as int };
+                &&& final(w).faults == old(w).faults
+                &&& final(w).files == old(w).files.insert(i, FileState { atime: na, mtime: nm, ..f })
+                &&& final(w).trace == old(w).trace.push(Event::Utimens(i, na, nm))
+            },
+            Err(_) => final(w).faults == old(w).faults + 1 && final(w).files == old(w).files && final(w).trace == old(w).trace,
+        },
+{ unimplemented!() }
+/// rustix::fs::{makedev, major, minor}: glibc's dev_t layout
+pub open spec fn spec_makedev(maj: u32, min: u32) -> u64 {
+    (((maj as u64) & 0xffff_f000u64) << 32u64) | (((maj as u64) & 0xfffu64) << 8u64) | (((min as u64) & 0xffff_ff00u64) << 12u64) | ((min as u64) & 0xffu64)
+}
+pub open spec fn spec_major(dev: u64) -> u32 { (((dev >> 32u64) & 0xffff_f000u64) | ((dev >> 8u64) & 0xfffu64)) as u32 }
+pub open spec fn spec_minor(dev: u64) -> u32 { (((dev >> 12u64) & 0xffff_ff00u64) | (dev & 0xffu64)) as u32 }
+/// decomposing a device number and composing it again gives it back (proved, not assumed; restated on `makedev` so that callers see it)
+pub proof fn lemma_dev_roundtrip(d: u64)
+    ensures spec_makedev(spec_major(d), spec_minor(d)) == d
+{
+    assert(((((((((d >> 32u64) & 0xffff_f000u64) | ((d >> 8u64) & 0xfffu64)) as u32) as u64) & 0xffff_f000u64) << 32u64) | (((((((d >> 32u64) & 0xffff_f000u64) | ((d >> 8u64) & 0xfffu64)) as u32) as u64) & 0xfffu64) << 8u64) | (((((((d >> 12u64) & 0xffff_ff00u64) | (d & 0xffu64)) as u32) as u64) & 0xffff_ff00u64) << 12u64) | ((((((d >> 12u64) & 0xffff_ff00u64) | (d & 0xffu64)) as u32) as u64) & 0xffu64)) == d) by (bit_vector);
+}
+#[verifier::external_body] pub fn makedev(maj: u32, min: u32) -> (r: u64)
+    ensures r == spec_makedev(maj, min), forall|d: u64| maj == spec_major(d) && min == spec_minor(d) ==> r == d
+{ unimplemented!() }
+#[verifier::external_body] pub fn major(dev: u64) -> (r: u32) ensures r == spec_major(dev) { unimplemented!() }
+#[verifier::external_body] pub fn minor(dev: u64) -> (r: u32) ensures r == spec_minor(dev) { unimplemented!() }
+
 impl File {
     /// dup(2): a second descriptor for the same open file description (same inode, *shared* offset)
     #[verifier::external_body]
